@@ -159,6 +159,10 @@ def run(prog: Program, res: Result) -> None:
         "R2-correct-own-bounds", dv.methods["correct"], "DiscreteVariable",
         f"correct is `{detail}`; expected int(np.clip(value, 0, len(self.choices) - 1)) (bounds in (low, high) order)", "correct")
     r = _ret(dv.methods["decode"])
+    if isinstance(r, ast.Subscript) and isinstance(r.slice, ast.Name):
+        so = origin(dv.methods["decode"].node, r.slice)
+        if so is not r.slice:
+            r = ast.copy_location(ast.Subscript(value=r.value, slice=so, ctx=ast.Load()), r)
     okd = isinstance(r, ast.Subscript) and _field(r.value, "choices") and isinstance(r.slice, ast.Call) and isinstance(r.slice.func, ast.Name) \
         and r.slice.func.id == "int" and len(r.slice.args) == 1 and isinstance(r.slice.args[0], ast.Name) \
         and r.slice.args[0].id == dv.methods["decode"].params[1]
@@ -170,7 +174,7 @@ def run(prog: Program, res: Result) -> None:
     # ------------------------------------------------------------------ PermutationVariable
     pv = vfs["PermutationVariable"]
     r = _ret(pv.methods["randomize"])
-    inner, casts = V_.strip_cast(r) if r is not None else (None, [])
+    inner, casts = V_.strip_cast(r, pv.methods["randomize"].node) if r is not None else (None, [])
     ok = isinstance(inner, ast.Call) and dotted(inner.func) in ("np.random.permutation", "numpy.random.permutation") and len(inner.args) == 1 \
         and (_range0(inner.args[0], lambda e: _len_of(e, "items")) or _len_of(inner.args[0], "items"))
     good(f"PermutationVariable.randomize = {norm(r)}", "PV.randomize") if ok else bad(
@@ -236,8 +240,10 @@ def run(prog: Program, res: Result) -> None:
         comp = None
         if init is not None:
             for n in own_nodes(init):
-                if isinstance(n, ast.Assign) and any(dotted(t) == "self._children" for t in n.targets) and isinstance(n.value, ast.ListComp):
-                    comp = n.value
+                if isinstance(n, ast.Assign) and any(dotted(t) == "self._children" for t in n.targets):
+                    vv = origin(init.node, n.value) if isinstance(n.value, ast.Name) else n.value
+                    if isinstance(vv, ast.ListComp):
+                        comp = vv
         ok = comp is not None and got_child == child_cls and len(comp.generators) == 1 and not comp.generators[0].ifs
         why = f"children are `{got_child}` built by `{norm(comp, 80) if comp is not None else None}`"
         if ok:
@@ -275,6 +281,12 @@ def run(prog: Program, res: Result) -> None:
                 if isinstance(it, ast.Attribute) and _field(it, "choices") and isinstance(kws.get("choices"), ast.Name) \
                         and isinstance(comp.generators[0].target, ast.Name) and kws["choices"].id == comp.generators[0].target.id:
                     ok = True
+                tg_ = comp.generators[0].target
+                if isinstance(it, ast.Call) and isinstance(it.func, ast.Name) and it.func.id == "enumerate" and len(it.args) == 1 \
+                        and _field(it.args[0], "choices") and isinstance(tg_, ast.Tuple) and len(tg_.elts) == 2 \
+                        and isinstance(kws.get("choices"), ast.Name) and isinstance(tg_.elts[1], ast.Name) \
+                        and kws["choices"].id == tg_.elts[1].id:
+                    ok = True
                 oksz = _len_of(size, "choices")
                 why = "children are not DiscreteVariable(choices=self.choices[i]) for every i in range(len(self.choices))"
             else:
@@ -289,51 +301,51 @@ def run(prog: Program, res: Result) -> None:
         else:
             bad("R4-children-built-from-measured-sequence", init or vf.cls.node, name, f"{name}: {why}", "children")
 
-    # ------------------------------------------------------------------ R5 validators
-    def has_reject(ci: ClassInfo, want_atoms: set, what: str, rule="R5-validator"):
-        hits = _validator_atoms(ci, what)
-        for (m, test, exc) in hits:
-            try:
-                atoms = set()
-                for d in dnf(to_formula(test, {}, {})):
-                    atoms |= set(d)
-            except FrmUnknown:
-                atoms = set()
-            txt = norm(test, 200)
-            if (atoms & want_atoms) or any(w in txt for w in want_atoms):
-                if exc != "ValueError":
-                    bad(rule, m, ci.name, f"{ci.name}.{m.name} rejects {what} with {exc}, not ValueError", f"{m.name}:{what}")
-                else:
-                    good(f"{ci.name}.{m.name} rejects {what}: {norm(test, 80)}", f"{ci.name}:{what}")
-                return True
-        bad(rule, ci.node, ci.name, f"{ci.name} no longer rejects {what} at construction (expected a validator raising ValueError on "
-                                     f"{sorted(want_atoms)[0]})", f"validator:{what}")
-        return False
-    has_reject(vfs["ContinuousVariable"].cls, {"self.upper_bound <= self.lower_bound"}, "upper <= lower")
-    for nm in ("ContinuousMultiVariable", "MultiObjectiveVariable"):
-        has_reject(vfs[nm].cls, {"ub <= lb for lb, ub in zip(self.lower_bounds, self.upper_bounds)", "ub <= lb"}, "upper <= lower")
-        has_reject(vfs[nm].cls, {"len(self.lower_bounds) != len(self.upper_bounds)"}, "length mismatch")
-    has_reject(vfs["BinaryVariable"].cls, {"v <= 0", "v < 1"}, "n_vars <= 0")
-    # the element-wise comparison inside np.any(np.array([...])) must be `ub <= lb` with lb from lowers, ub from uppers
-    for nm in ("ContinuousMultiVariable", "MultiObjectiveVariable"):
-        ci = vfs[nm].cls
+    # ------------------------------------------------------------------ R5 validators (rejection formulas)
+    from ..frm import canon_expr, equivalent, f_and, f_or, raise_formula
+
+    def rejection(ci: ClassInfo):
+        rv, ro = ("false",), ("false",)
         for m in ci.methods.values():
-            for n in ast.walk(m.node):
-                if isinstance(n, ast.ListComp) and isinstance(n.elt, ast.Compare) and len(n.generators) == 1 \
-                        and isinstance(n.generators[0].iter, ast.Call) and dotted(n.generators[0].iter.func) == "zip":
-                    z = n.generators[0].iter
-                    tg = n.generators[0].target
-                    okz = [dotted(a) for a in z.args] == ["self.lower_bounds", "self.upper_bounds"] and isinstance(tg, ast.Tuple) \
-                        and len(tg.elts) == 2
-                    if okz:
-                        lb, ub = tg.elts[0].id, tg.elts[1].id
-                        c = n.elt
-                        txt = norm(c)
-                        okz = txt in (f"{ub} <= {lb}", f"{lb} >= {ub}")
-                    if okz:
-                        good(f"{nm} validator compares element-wise `{norm(n.elt)}`", f"{nm}:elementwise")
-                    else:
-                        bad("R5-validator", n, nm, f"{nm} validator compares `{norm(n, 80)}`; inverted or equal bounds must be rejected (ub <= lb)", "elementwise")
+            decs = [norm(d) for d in m.node.decorator_list]
+            if any("validator" in d for d in decs):
+                a_, b_ = raise_formula(prog, m)
+                rv, ro = f_or(rv, a_), f_or(ro, b_)
+        return rv, ro
+
+    def must_reject(ci: ClassInfo, alternatives: list, what: str):
+        """Some alternative atom (spec written for a parameter name the validator may choose) must imply the rejection."""
+        try:
+            rv, ro = rejection(ci)
+        except FrmUnknown as exc:
+            res.errors.append(f"{ci.name}: validator shape not understood ({exc})")
+            return
+        ok = False
+        for txt in alternatives:
+            atom = ("atom", canon_expr(ast.parse(txt, mode="eval").body))
+            try:
+                imp, _ = equivalent(f_and(atom, rv), atom)
+                imp_other, _ = equivalent(f_and(atom, ro), atom) if ro != ("false",) else (False, None)
+            except FrmUnknown:
+                continue
+            if imp:
+                ok = True
+            if imp_other and not imp:
+                bad("R5-validator", ci.node, ci.name, f"{ci.name} rejects {what} with an exception other than ValueError", f"validator:{what}:exc")
+                return
+        if ok:
+            good(f"{ci.name} rejects {what} with ValueError", f"{ci.name}:{what}")
+        else:
+            bad("R5-validator", ci.node, ci.name,
+                f"{ci.name} no longer rejects {what} at construction (a validator raising ValueError whenever `{alternatives[0]}`)",
+                f"validator:{what}")
+    must_reject(vfs["ContinuousVariable"].cls, ["self.upper_bound <= self.lower_bound"], "upper <= lower")
+    for nm in ("ContinuousMultiVariable", "MultiObjectiveVariable"):
+        must_reject(vfs[nm].cls, ["any(ub <= lb for lb, ub in zip(self.lower_bounds, self.upper_bounds))"], "upper <= lower")
+        must_reject(vfs[nm].cls, ["len(self.lower_bounds) != len(self.upper_bounds)"], "length mismatch")
+    bv = vfs["BinaryVariable"].cls
+    vparams = [m.params[1] for m in bv.methods.values() if any("validator" in norm(d) for d in m.node.decorator_list) and len(m.params) > 1]
+    must_reject(bv, [f"{v} <= 0" for v in (vparams or ["v"])], "n_vars <= 0")
 
 
 # ---------------------------------------------------------------------------------------------
@@ -351,8 +363,8 @@ VARIANTS = [
              "    @model_validator(mode=\"after\")\n    def validate_bounds(self) -> \"ContinuousMultiVariable\":\n        if len(self.lower_bounds) != len(self.upper_bounds):\n            raise ValueError(\"Lower and upper bounds must have the same length\")\n        if np.any(np.array([ub < lb for lb, ub in zip(self.lower_bounds, self.upper_bounds)])):")]),
     V("multi-corrects-with-wrong-child", _M,
       "class DiscreteMultiVariable(Variable):", "class DiscreteMultiVariable(Variable):  # variant", "C13.R4",
-      more=[(_M, "    def get_bounds(self) -> list[tuple[int, int]]:\n        return [v.get_bounds() for v in self._children]\n\n    def correct(self, value: list):\n        return [v.correct(value[idx]) for idx, v in enumerate(self._children)]",
-             "    def get_bounds(self) -> list[tuple[int, int]]:\n        return [v.get_bounds() for v in self._children]\n\n    def correct(self, value: list):\n        return [self._children[0].correct(value[idx]) for idx, v in enumerate(self._children)]")]),
+      more=[(_M, "        return [lb for lb, _ in bounds], [ub for _, ub in bounds]\n\n    def correct(self, value: list):\n        return [v.correct(value[idx]) for idx, v in enumerate(self._children)]",
+             "        return [lb for lb, _ in bounds], [ub for _, ub in bounds]\n\n    def correct(self, value: list):\n        return [self._children[0].correct(value[idx]) for idx, v in enumerate(self._children)]")]),
     V("binary-size-from-children-of-other", _M, "    def size(self) -> int:\n        return self.n_vars", "    def size(self) -> int:\n        return self.n_vars + 1", "C13.R4"),
     V("randomize-uniform-swapped", _M, "        return np.random.uniform(self.lower_bound, self.upper_bound)", "        return np.random.uniform(self.upper_bound, self.lower_bound)", "C13.R1"),
     V("discrete-randomize-off-by-one", _M, "        return np.random.choice(range(0, len(self.choices)))", "        return np.random.choice(range(0, len(self.choices) + 1))", "C13.R1"),
